@@ -222,7 +222,7 @@ func pipeline(env *Env, chk *Check, res *Result, cases []Case, open map[string]F
 		byID[t["id"].(string)] = t
 		inByID[t["id"].(string)] = cases[i]
 	}
-	bad, st, err := Validate(env, chk.TraceModule, traces, "main")
+	bad, st, err := validateByModule(env, chk.TraceModule, traces, "main")
 	if err != nil {
 		return 2, err
 	}
@@ -283,7 +283,7 @@ func pipeline(env *Env, chk *Check, res *Result, cases []Case, open map[string]F
 	if err != nil {
 		return 2, err
 	}
-	bad2, _, err := Validate(env, chk.TraceModule, re, "re")
+	bad2, _, err := validateByModule(env, chk.TraceModule, re, "re")
 	if err != nil {
 		return 2, err
 	}
@@ -330,6 +330,36 @@ func pipeline(env *Env, chk *Check, res *Result, cases []Case, open map[string]F
 	return 0, nil
 }
 
+// validateByModule validates each trace with the trace specification its case names ("tm"),
+// the check's own module by default.
+func validateByModule(env *Env, def string, traces []Case, tag string) ([]Bad, TLCStats, error) {
+	groups := map[string][]Case{}
+	var order []string
+	for _, t := range traces {
+		m, _ := t["tm"].(string)
+		if m == "" {
+			m = def
+		}
+		if _, ok := groups[m]; !ok {
+			order = append(order, m)
+		}
+		groups[m] = append(groups[m], t)
+	}
+	var all []Bad
+	var total TLCStats
+	for _, m := range order {
+		b, st, err := Validate(env, m, groups[m], tag+"-"+m)
+		if err != nil {
+			return nil, total, err
+		}
+		all = append(all, b...)
+		total.Generated += st.Generated
+		total.Distinct += st.Distinct
+		total.Seconds += st.Seconds
+	}
+	return all, total, nil
+}
+
 func trim(t Case) any {
 	b, _ := json.Marshal(t)
 	if len(b) <= 1500 {
@@ -370,7 +400,7 @@ func Replay(root, path string) int {
 		fmt.Println("ERROR:", err)
 		return 2
 	}
-	bad, _, err := Validate(env, rec.TraceModule, tr, "replay")
+	bad, _, err := validateByModule(env, rec.TraceModule, tr, "replay")
 	if err != nil {
 		fmt.Println("ERROR:", err)
 		return 2
